@@ -529,6 +529,7 @@ class Executor(object):
         self.obligs = []
         self.work = [[]]
         self.fn_node = fn
+        self.top_fn_node = fn
         self.check_signature(contract, fn)
         while self.work:
             prefix = self.work.pop()
@@ -651,10 +652,11 @@ class Executor(object):
             if cls == exc.cls or (cls.endswith('+') and exc_is_subclass(exc.cls, cls[:-1])):
                 clauses = cl
                 break
-        if clauses is None and '*' in contract.raises:
+        if clauses is None and '*' in contract.raises and exc.cls == 'AnyError':
+            # '*' stands for the arbitrary exception an abstract callee (transport, user callback) may raise -- not for concrete classes
             clauses = contract.raises['*']
         if clauses is None:
-            self.oblige('no-escape[%s]' % exc.cls, z3.BoolVal(False), set(contract.props), 'exc',
+            self.oblige('no-escape[%s]' % exc.cls, z3.BoolVal(False), set(contract.escape_props or contract.props), 'exc',
                         expr='exception %s must not escape %s (not in its raises clause)' % (exc.cls, contract.key),
                         meta={'exc': exc.cls})
             return
@@ -982,7 +984,7 @@ class Executor(object):
     # ---- loops -----------------------------------------------------------------------------
 
     def loop_ordinal(self, node):
-        loops = [n for n in ast.walk(self.fn_node) if isinstance(n, (ast.While, ast.For))]
+        loops = [n for n in ast.walk(self.top_fn_node) if isinstance(n, (ast.While, ast.For))]
         loops.sort(key=lambda n: (n.lineno, n.col_offset))
         for i, n in enumerate(loops):
             if n is node:
